@@ -13,7 +13,12 @@
 (***************************************************************************)
 EXTENDS SyltModules, Json, IOUtils
 
+\* tree A: siblings, sub-folders, two exports.sy;  tree B: std module names as file name (last component), as
+\* first and as inner folder name, and as the folder of an exports.sy
 MCTree == <<"main.sy", "a.sy", "exports.sy", "sub/b.sy", "sub/exports.sy", "sub/deep/c.sy">>
+MCTreeB == <<"main.sy", "geometry/math.sy", "util/list.sy", "set/b.sy", "sub/dict/c.sy", "vendor/set/exports.sy">>
+MCProgsA == {1, 2, 3, 4}
+MCProgsB == {1, 5}
 
 VARIABLES d, pc
 vars == <<d, pc>>
@@ -24,7 +29,7 @@ Only == IF "ONLY" \in DOMAIN IOEnv THEN IOEnv.ONLY ELSE ""        \* "p,m,v" : j
 
 ASSUME PathsOK
 ASSUME ProgramsOK
-ASSUME \A p \in 1..NProgs :
+ASSUME \A p \in ProgSet :
     PrintT(<<"PROG", ToJson([p |-> p, name |-> ProgNames[p], tops |-> Prog(p), tree |-> Tree,
                              items |-> [q \in 1..Len(Prog(p)) |->
                                           [name |-> ItemName(Prog(p)[q]), kind |-> ItemKind(Prog(p)[q]),
@@ -42,13 +47,19 @@ EmitRec(c) ==
     [p |-> c.p, m |-> c.m, v |-> c.v, prog |-> c.prog,
      files |-> [q \in DOMAIN c.files |->
                   [path |-> c.files[q].path, items |-> c.files[q].items, lines |-> c.files[q].lines,
-                   refs |-> c.files[q].refs, decoys |-> c.files[q].decoys, imports_last |-> c.files[q].imports_last]],
-     edges |-> c.edges,
+                   refs |-> [r \in DOMAIN c.files[q].refs |->
+                               [item |-> c.files[q].refs[r].item, ns |-> JoinDot(c.files[q].refs[r].ns, 1),
+                                name |-> c.files[q].refs[r].name]],
+                   decoys |-> c.files[q].decoys, imports_last |-> c.files[q].imports_last]],
+     edges |-> [j \in DOMAIN c.edges |->
+                  [f |-> c.edges[j].f, x |-> c.edges[j].x, g |-> c.edges[j].g, st |-> c.edges[j].st, path |-> c.edges[j].path,
+                   form |-> c.edges[j].form, ns |-> JoinDot(c.edges[j].ns, 1), name |-> c.edges[j].name, via |-> c.edges[j].via]],
      twins |-> [q \in DOMAIN c.twins |->
                   [kind |-> c.twins[q].kind, file |-> c.twins[q].file, item |-> c.twins[q].item, st |-> c.twins[q].st,
                    form |-> c.twins[q].form, itemkind |-> c.twins[q].itemkind, lines |-> c.twins[q].lines,
-                   ns |-> c.twins[q].ns, name |-> c.twins[q].name]],
-     load |-> c.load, layout |-> c.layout, cyc |-> c.cyc, decoy |-> c.decoy, cycle |-> c.cycle, diamond |-> c.diamond]
+                   ns |-> JoinDot(c.twins[q].ns, 1), name |-> c.twins[q].name]],
+     load |-> c.load, layout |-> c.layout, cyc |-> c.cyc, decoy |-> c.decoy, cycle |-> c.cycle, diamond |-> c.diamond,
+     chain |-> c.chain, chaincycle |-> c.chaincycle]
 
 Emit == /\ pc = "made"
         /\ pc' = "done"
